@@ -413,7 +413,8 @@ class C10(Property):
                 eps = spec if isinstance(spec, list) else [n - 1]
             lines.append(f"flags {list_s(eps)} {n}")
             try:
-                pa = PotentialArray(np.zeros((n, 2, 2), dtype=np.float32), slice_thickness=1.0, exit_planes=tuple(eps), sampling=0.1)
+                pa = PotentialArray(np.zeros((n, 2, 2), dtype=np.float32), slice_thickness=1.0, sampling=0.1)
+                pa._exit_planes = tuple(eps)  # the flag loop is compared on arbitrary tuples, also ones the constructor now rejects
                 got = "ok " + list_s(["T" if b else "F" for b in pa._exit_plane_after])
             except Exception as e:  # noqa
                 got = "err " + err_kind(e)
@@ -530,8 +531,34 @@ class C10(Property):
                     ctx.violation(f"{mode}-build-window-{kind}", dict(case, window=[a, b], oracle="build-real" if real else "build"), detail)
                     return
 
+    def oracle_window_planes(self, ctx: Ctx, case):
+        """exit planes of a windowed potential array lie inside the window, and a multislice run over it records an exit wave"""
+        import abtem
+
+        ts = case["ts"]
+        a, b = case["window"]
+        atoms = tag_atoms(0, ts, "same")
+        pot = abtem.Potential(atoms, gpts=G, slice_thickness=tuple(ts))
+        for how, w in (("getitem", pot.build(lazy=False)[a:b]), ("build", pot.build(a, b, lazy=False))):
+            planes = [int(p) for p in w.exit_planes]
+            ctx.evaluations += 1
+            if any(p >= b - a for p in planes):
+                wave = abtem.PlaneWave(energy=100e3).multislice(w, lazy=False)
+                ctx.violation("window-array-keeps-parent-exit-planes", case,
+                              {"how": how, "exit_planes": planes, "window_slices": b - a,
+                               "exit_wave_abs_sum": float(np.abs(np.asarray(wave.array)).sum())})
+                return
+
     def conformance(self, ctx: Ctx):
         rng = ctx.rng
+        for _ in range(ctx.n(3, 20)):
+            ts = gen_ts(rng)
+            n = len(ts)
+            a = rng.randint(0, n - 1)
+            c = {"oracle": "window-planes", "ts": ts, "window": [a, rng.randint(a + 1, n)]}
+            self.oracle_window_planes(ctx, c)
+            ctx.case(c)
+            ctx.count("conf-window-planes")
         # (a) windows with tagging kernels, all three kinds, all windows
         for _ in range(ctx.n(40, 500)):
             c = gen_case(ctx)
@@ -563,7 +590,7 @@ class C10(Property):
             for proj in ("infinite", "finite"):
                 reals.append(dict(source=src, projection=proj))
         rng.shuffle(reals)
-        for r in reals[: ctx.n(4, 6)] + [dict(source="phonons", projection="infinite", crystal=True)]:
+        for r in reals[: ctx.n(6, 6)] + [dict(source="phonons", projection="infinite", crystal=True), dict(source="ensemble", projection="finite", crystal=True)][: ctx.n(1, 2)]:
             H = rng.choice([3.0, 4.0, 5.0])
             c = dict(r, aseed=rng.randint(0, 10 ** 6), natoms=rng.randint(3, 6), height=H, elements=rng.choice([[6], [6, 14], [14, 8]]),
                      gpts=rng.choice([8, 12, 16]), st=rng.choice([1.0, 1.25, 2.0]), eps=rng.choice([None, 2]),
@@ -576,7 +603,9 @@ class C10(Property):
 
     def replay(self, ctx: Ctx, case):
         which = case.get("oracle")
-        if which == "windows":
+        if which == "window-planes":
+            self.oracle_window_planes(ctx, case)
+        elif which == "windows":
             self.oracle_windows(ctx, case)
         elif which == "build-real":
             self.oracle_build(ctx, case, real=True)
